@@ -1,7 +1,17 @@
-(* CreateJobProofs.v — lemmas for C05. *)
-From Coq Require Import List NArith ZArith Bool String Lia.
+(* CreateJobProofs.v — lemmas for C05.
+
+   Contents
+     1. the creation-metadata table (C05_meta_table) and the list of trivial classes;
+     2. a one-step unfolding equation for [inst] in terms of top-level mirrors of its local
+        functions ([inst_item], [inst_val], [inst_field], [inst_model]);
+     3. [trivial_identity]: a generic theorem, any schema — instances built from classes with trivial
+        metadata are carried over unchanged;
+     4. shape lemmas: partial evaluation of [inst] on the concrete metadata of Generated.schema;
+     5. the symbol table [symtab_of];
+     6. no re-expansion: the link to the format-string model (C16). *)
+From Coq Require Import List NArith ZArith Bool String Lia Arith.
 Import ListNotations.
-Require Import OJD.Base OJD.Json OJD.Schema OJD.Generated OJD.NumPrint OJD.CreateJob.
+Require Import OJD.Base OJD.Lexer OJD.Json OJD.Schema OJD.Generated OJD.NumPrint OJD.CreateJob.
 Local Open Scope string_scope.
 Local Open Scope list_scope.
 
@@ -46,3 +56,1106 @@ Definition expected_jcm_table : list (string * jcm) := [
 
 Lemma meta_table_ok : nontrivial_jcm Generated.schema = expected_jcm_table.
 Proof. vm_compute. reflexivity. Qed.
+
+(* ------------------------------------------------------------------------------------------ *)
+(* 1b. the classes with trivial metadata                                                       *)
+
+Definition trivial_classes (s : schema_t) : list string :=
+  flat_map (fun nc => if jcm_is_trivial (c_jcm (snd nc)) then [fst nc] else []) s.
+
+Definition expected_trivial_classes : list string := [
+  "CancelationMethodNotifyThenTerminate"; "CancelationMethodTerminate"; "Action"; "StepActions";
+  "EnvironmentActions"; "EmbeddedFileText"; "StepScript"; "EnvironmentScript";
+  "RangeListTaskParameterDefinition"; "IntRangeListTaskParameterDefinition";
+  "FloatRangeListTaskParameterDefinition"; "RangeExpressionTaskParameterDefinition";
+  "StepParameterSpace"; "Environment"; "JobParameter";
+  "JobStringParameterDefinitionUserInterface"; "JobPathParameterDefinitionFileFilter";
+  "JobPathParameterDefinitionUserInterface"; "JobIntParameterDefinitionUserInterface";
+  "JobFloatParameterDefinitionUserInterface"; "AmountRequirement"; "AttributeRequirement";
+  "HostRequirements"; "StepDependency"; "Step"; "Job"; "EnvironmentTemplate" ].
+
+Lemma trivial_classes_ok : trivial_classes Generated.schema = expected_trivial_classes.
+Proof. vm_compute. reflexivity. Qed.
+
+(* the classes the property names: scripts, environments, dependencies and everything below them *)
+Definition carried_classes : list string := [
+  "StepScript"; "StepActions"; "Action"; "CancelationMethodNotifyThenTerminate";
+  "CancelationMethodTerminate"; "EmbeddedFileText"; "Environment"; "EnvironmentScript";
+  "EnvironmentActions"; "StepDependency" ].
+
+Lemma carried_are_trivial : incl carried_classes (trivial_classes Generated.schema).
+Proof.
+  rewrite trivial_classes_ok. intros c Hc.
+  assert (H : forallb (fun c => existsb (String.eqb c) expected_trivial_classes) carried_classes = true)
+    by (vm_compute; reflexivity).
+  rewrite forallb_forall in H. specialize (H c Hc). apply existsb_exists in H.
+  destruct H as [d [Hd He]]. apply String.eqb_eq in He. subst d. exact Hd.
+Qed.
+
+(* ------------------------------------------------------------------------------------------ *)
+(* 2. one-step unfolding of [inst]                                                             *)
+
+Section Unfold.
+  Variable resolve : symtab -> str -> outcome str.
+  Variable sigma : symtab.
+  Variable rec : mval -> outcome mval.        (* the recursive call [inst ... f] *)
+  Variable j : jcm.
+
+  (* _instantiate_noncollection_value *)
+  Definition inst_item (field_name : string) (x : mval) : outcome mval :=
+    match x with
+    | MModel _ _ => rec x
+    | MFmt s => if mem_s field_name (j_resolve j)
+                then do r <- resolve sigma s; Ok (MStr r)
+                else Ok x
+    | _ => Ok x
+    end.
+
+  Definition reshape_step (fname key_field : string) (acc : outcome (list (str * mval))) (item : mval)
+    : outcome (list (str * mval)) :=
+    do a <- acc;
+    do k <- key_of item key_field;
+    do y <- inst_item fname item;
+    Ok (dict_set a k y).
+
+  Definition inst_member (kv : str * mval) : outcome (str * mval) :=
+    do y <- match snd kv with
+            | MModel _ _ => rec (snd kv)
+            | MFmt s => if existsb (fun r => str_eqb (str_of_string r) (fst kv)) (j_resolve j)
+                        then do r <- resolve sigma s; Ok (MStr r)
+                        else Ok (snd kv)
+            | _ => Ok (snd kv)
+            end; Ok (fst kv, y).
+
+  (* the value of one field: list / dict / anything else *)
+  Definition inst_val (fname : string) (x : mval) : outcome mval :=
+    match x with
+    | MList items =>
+      match lookup_s fname (j_reshape j) with
+      | Some key_field =>
+        do d <- fold_left (reshape_step fname key_field) items (Ok []);
+        Ok (MDict d)
+      | None => do l <- mapM (inst_item fname) items; Ok (MList l)
+      end
+    | MDict members => do l <- mapM inst_member members; Ok (MDict l)
+    | _ => inst_item fname x
+    end.
+
+  Definition inst_field (fv : string * mval) : outcome (list (string * mval)) :=
+    let (fname, x) := fv in
+    if mem_s fname (j_exclude j) then Ok []
+    else
+      let target := match lookup_s fname (j_rename j) with Some t => t | None => fname end in
+      do y <- inst_val fname x;
+      Ok [(target, y)].
+
+  Definition add_value (fields fs : list (string * mval)) : outcome (list (string * mval)) :=
+    if j_adds_value j then
+      match mfield "name" fields with
+      | MStr n =>
+        match st_lookup sigma ($"RawParam." ++ n) with
+        | Some v => Ok (fs ++ [("value", MStr v)])
+        | None => Raise KeyError
+        end
+      | _ => Raise AttributeError
+      end
+    else Ok fs.
+
+  Definition target_class (c : string) (fields : list (string * mval)) : string :=
+    match j_create_as j with
+    | CreateSelf => c
+    | CreateModel t => t
+    | CreateIntRange expr_cls list_cls =>
+      match mfield "range" fields with MFmt _ => expr_cls | _ => list_cls end
+    end.
+
+  Definition inst_model (c : string) (fields : list (string * mval)) : outcome mval :=
+    do fs <- mapM inst_field fields;
+    do fs' <- add_value fields (List.concat fs);
+    Ok (MModel (target_class c fields) fs').
+End Unfold.
+
+Lemma inst_S : forall SC resolve sigma f v,
+  inst SC resolve sigma (S f) v =
+  match v with
+  | MModel c fields => inst_model resolve sigma (inst SC resolve sigma f) (jcm_of SC c) c fields
+  | _ => Ok v
+  end.
+Proof. intros. destruct v; reflexivity. Qed.
+
+Lemma inst_O : forall SC resolve sigma v, inst SC resolve sigma O v = Raise RuntimeError.
+Proof. reflexivity. Qed.
+
+(* ------------------------------------------------------------------------------------------ *)
+(* 3. trivial metadata: identity                                                               *)
+
+(* every class name occurring in an instance tree, at any depth *)
+Fixpoint classes_in (v : mval) : list string :=
+  match v with
+  | MList l => flat_map classes_in l
+  | MDict l => flat_map (fun kv => classes_in (snd kv)) l
+  | MModel c fs => c :: flat_map (fun kv => classes_in (snd kv)) fs
+  | _ => []
+  end.
+
+Lemma mapM_id : forall (A : Type) (f : A -> outcome A) l,
+  (forall x, In x l -> f x = Ok x) -> mapM f l = Ok l.
+Proof.
+  induction l as [|a l IH]; intros H; [reflexivity|].
+  simpl. rewrite (H a (or_introl eq_refl)). simpl. rewrite IH; [reflexivity|].
+  intros x Hx. apply H. right. exact Hx.
+Qed.
+
+Lemma mapM_map : forall (A B : Type) (f : A -> outcome B) (g : A -> B) l,
+  (forall x, In x l -> f x = Ok (g x)) -> mapM f l = Ok (map g l).
+Proof.
+  induction l as [|a l IH]; intros H; [reflexivity|].
+  simpl. rewrite (H a (or_introl eq_refl)). simpl. rewrite IH; [reflexivity|].
+  intros x Hx. apply H. right. exact Hx.
+Qed.
+
+Lemma mapM_ext : forall (A B : Type) (f g : A -> outcome B) l,
+  (forall x, In x l -> f x = g x) -> mapM f l = mapM g l.
+Proof.
+  induction l as [|a l IH]; intros H; [reflexivity|].
+  simpl. rewrite (H a (or_introl eq_refl)). rewrite IH; [reflexivity|].
+  intros x Hx. apply H. right. exact Hx.
+Qed.
+
+Lemma concat_singletons : forall (A : Type) (l : list A), List.concat (map (fun x => [x]) l) = l.
+Proof. induction l as [|a l IH]; simpl; [reflexivity|]. rewrite IH. reflexivity. Qed.
+
+Lemma depth_le_max : forall (A : Type) (g : A -> nat) l x,
+  In x l -> g x <= fold_right (fun y acc => Nat.max (g y) acc) O l.
+Proof.
+  induction l as [|a l IH]; intros x Hx; [destruct Hx|].
+  simpl. destruct Hx as [Hx|Hx]; [subst; lia|]. specialize (IH x Hx). lia.
+Qed.
+
+Lemma jcm_trivial_eq : forall j, jcm_is_trivial j = true -> j = jcm_trivial.
+Proof.
+  intros [r e n s c a] H. unfold jcm_is_trivial in H.
+  destruct r; [|discriminate]. destruct e; [|discriminate]. destruct n; [|discriminate].
+  destruct s; [|discriminate]. destruct c; try discriminate. destruct a; [discriminate|].
+  reflexivity.
+Qed.
+
+(* the values [inst_val] hands to the recursive call or to [inst_item] *)
+Definition direct (x : mval) : list mval :=
+  match x with
+  | MList l => l
+  | MDict l => map snd l
+  | _ => [x]
+  end.
+
+Lemma direct_depth : forall x y, In y (direct x) -> mval_depth y <= mval_depth x.
+Proof.
+  intros x y H. destruct x; simpl in H;
+    try (destruct H as [H|[]]; subst; apply Nat.le_refl).
+  - simpl. apply (depth_le_max _ mval_depth) in H. lia.
+  - simpl. apply in_map_iff in H. destruct H as [kv [E H]]. subst y.
+    apply (depth_le_max _ (fun kv => mval_depth (snd kv))) in H. lia.
+Qed.
+
+Lemma direct_classes : forall x y c, In y (direct x) -> In c (classes_in y) -> In c (classes_in x).
+Proof.
+  intros x y c H Hc. destruct x; simpl in H;
+    try (destruct H as [H|[]]; subst; exact Hc).
+  - simpl. apply in_flat_map. exists y. split; assumption.
+  - simpl. apply in_map_iff in H. destruct H as [kv [E H]]. subst y.
+    apply in_flat_map. exists kv. split; assumption.
+Qed.
+
+Lemma inst_val_trivial : forall resolve sigma rec fname x,
+  (forall y, In y (direct x) -> rec y = Ok y) ->
+  inst_val resolve sigma rec jcm_trivial fname x = Ok x.
+Proof.
+  intros resolve sigma rec fname x H.
+  destruct x; try reflexivity.
+  - (* list *)
+    unfold inst_val. simpl lookup_s.
+    rewrite (mapM_id _ (inst_item resolve sigma rec jcm_trivial fname) l); [reflexivity|].
+    intros y Hy. destruct y; try reflexivity. simpl. apply H. simpl. exact Hy.
+  - (* dict *)
+    unfold inst_val.
+    rewrite (mapM_id _ (inst_member resolve sigma rec jcm_trivial) l); [reflexivity|].
+    intros [k y] Hy. unfold inst_member. simpl fst. simpl snd.
+    assert (Hr : rec y = Ok y) by (apply H; simpl; apply in_map_iff; exists (k, y); split; [reflexivity|exact Hy]).
+    destruct y; try reflexivity. rewrite Hr. reflexivity.
+  - (* model *)
+    simpl. apply H. simpl. left. reflexivity.
+Qed.
+
+Theorem trivial_identity : forall SC resolve sigma fuel v,
+  (forall c, In c (classes_in v) -> jcm_is_trivial (jcm_of SC c) = true) ->
+  mval_depth v < fuel ->
+  inst SC resolve sigma fuel v = Ok v.
+Proof.
+  intros SC resolve sigma. induction fuel as [|f IH]; intros v Hc Hd; [lia|].
+  rewrite inst_S. destruct v as [ | | | | | | | | |c fields]; try reflexivity.
+  assert (Hj : jcm_of SC c = jcm_trivial).
+  { apply jcm_trivial_eq. apply Hc. simpl. left. reflexivity. }
+  rewrite Hj. unfold inst_model.
+  assert (Hf : mapM (inst_field resolve sigma (inst SC resolve sigma f) jcm_trivial) fields
+               = Ok (map (fun fv => [fv]) fields)).
+  { apply mapM_map. intros [fn x] Hin. unfold inst_field. simpl mem_s. simpl lookup_s.
+    rewrite inst_val_trivial; [reflexivity|].
+    intros y Hy. apply IH.
+    - intros c' Hc'. apply Hc. simpl. right. apply in_flat_map. exists (fn, x). split; [exact Hin|].
+      simpl. eapply direct_classes; eassumption.
+    - apply direct_depth in Hy.
+      pose proof (depth_le_max _ (fun kv : string * mval => mval_depth (snd kv)) fields (fn, x) Hin) as Hm.
+      simpl in Hm. simpl in Hd. lia. }
+  rewrite Hf. simpl. rewrite concat_singletons. reflexivity.
+Qed.
+
+(* instance trees built from the trivial classes of the live schema *)
+Lemma trivial_class_jcm : forall c, In c (trivial_classes Generated.schema) ->
+  jcm_is_trivial (jcm_of Generated.schema c) = true.
+Proof.
+  assert (H : forallb (fun c => jcm_is_trivial (jcm_of Generated.schema c)) (trivial_classes Generated.schema) = true)
+    by (vm_compute; reflexivity).
+  intros c Hc. rewrite forallb_forall in H. exact (H c Hc).
+Qed.
+
+Theorem trivial_unchanged : forall resolve sigma fuel v,
+  incl (classes_in v) (trivial_classes Generated.schema) ->
+  mval_depth v < fuel ->
+  inst Generated.schema resolve sigma fuel v = Ok v.
+Proof.
+  intros resolve sigma fuel v Hi Hd. apply trivial_identity; [|exact Hd].
+  intros c Hc. apply trivial_class_jcm. apply Hi. exact Hc.
+Qed.
+
+Theorem carried_unchanged : forall resolve sigma fuel v,
+  incl (classes_in v) carried_classes ->
+  mval_depth v < fuel ->
+  inst Generated.schema resolve sigma fuel v = Ok v.
+Proof.
+  intros resolve sigma fuel v Hi Hd. apply trivial_unchanged; [|exact Hd].
+  intros c Hc. apply carried_are_trivial. apply Hi. exact Hc.
+Qed.
+
+(* ------------------------------------------------------------------------------------------ *)
+(* 5. the symbol table                                                                         *)
+
+Lemma str_eqb_refl' : forall a, str_eqb a a = true.
+Proof. induction a as [|x a IH]; simpl; [reflexivity|]. rewrite N.eqb_refl. exact IH. Qed.
+
+Lemma str_eqb_true : forall a b, str_eqb a b = true <-> a = b.
+Proof.
+  induction a as [|x a IH]; intros [|y b]; simpl; split; intros H; try reflexivity; try discriminate.
+  - apply andb_true_iff in H. destruct H as [H1 H2]. apply N.eqb_eq in H1. apply IH in H2. subst. reflexivity.
+  - inversion H. subst. rewrite N.eqb_refl. apply str_eqb_refl'.
+Qed.
+
+Lemma str_eqb_app_l : forall p a b, str_eqb (p ++ a) (p ++ b) = str_eqb a b.
+Proof. induction p as [|x p IH]; intros a b; simpl; [reflexivity|]. rewrite N.eqb_refl. apply IH. Qed.
+
+Definition p_param : str := $"Param.".
+Definition p_raw : str := $"RawParam.".
+
+Lemma param_not_raw : forall a b, str_eqb (p_param ++ a) (p_raw ++ b) = false.
+Proof. reflexivity. Qed.
+Lemma raw_not_param : forall a b, str_eqb (p_raw ++ a) (p_param ++ b) = false.
+Proof. reflexivity. Qed.
+
+Definition v_name (e : str * str * str) : str := fst (fst e).
+Definition v_type (e : str * str * str) : str := snd (fst e).
+Definition v_value (e : str * str * str) : str := snd e.
+Definition is_path (e : str * str * str) : bool := str_eqb (v_type e) $"PATH".
+
+(* the first entry of [vals] with the given name *)
+Definition first_named (n : str) (vals : list (str * str * str)) : option (str * str * str) :=
+  List.find (fun e => str_eqb n (v_name e)) vals.
+
+Lemma symtab_of_cons : forall n t v r,
+  symtab_of ((n, t, v) :: r) =
+  (if str_eqb t $"PATH" then [] else [(p_param ++ n, v)]) ++ [(p_raw ++ n, v)] ++ symtab_of r.
+Proof. intros. unfold symtab_of. simpl flat_map. rewrite <- app_assoc. reflexivity. Qed.
+
+Lemma symtab_raw : forall vals n,
+  st_lookup (symtab_of vals) (p_raw ++ n) = option_map v_value (first_named n vals).
+Proof.
+  induction vals as [|[[n' t] v] r IH]; intros n; [reflexivity|].
+  rewrite symtab_of_cons. unfold first_named. simpl List.find. unfold v_name at 1. simpl fst.
+  destruct (str_eqb t $"PATH"); cbn [app st_lookup].
+  - rewrite str_eqb_app_l. destruct (str_eqb n n'); [reflexivity|]. apply IH.
+  - rewrite raw_not_param. rewrite str_eqb_app_l. destruct (str_eqb n n'); [reflexivity|]. apply IH.
+Qed.
+
+(* Param.<n>: the first entry with that name among the non-PATH entries *)
+Lemma symtab_param_gen : forall vals n,
+  st_lookup (symtab_of vals) (p_param ++ n)
+  = option_map v_value (first_named n (filter (fun e => negb (is_path e)) vals)).
+Proof.
+  induction vals as [|[[n' t] v] r IH]; intros n; [reflexivity|].
+  rewrite symtab_of_cons. simpl filter. unfold is_path at 1. unfold v_type at 1. simpl fst. simpl snd.
+  destruct (str_eqb t $"PATH"); simpl negb; cbv iota.
+  - cbn [app st_lookup]. rewrite param_not_raw. apply IH.
+  - unfold first_named. simpl List.find. unfold v_name at 1. simpl fst.
+    cbn [app st_lookup]. rewrite str_eqb_app_l. destruct (str_eqb n n'); [reflexivity|].
+    rewrite param_not_raw. apply IH.
+Qed.
+
+Lemma first_named_in : forall n vals e, first_named n vals = Some e -> In e vals /\ v_name e = n.
+Proof.
+  intros n vals e H. unfold first_named in H. apply find_some in H. destruct H as [H1 H2].
+  split; [exact H1|]. apply str_eqb_true in H2. symmetry. exact H2.
+Qed.
+
+Lemma first_named_none : forall n vals, ~ In n (map v_name vals) -> first_named n vals = None.
+Proof.
+  intros n vals H. unfold first_named. destruct (List.find _ vals) as [e|] eqn:E; [|reflexivity].
+  apply find_some in E. destruct E as [E1 E2]. apply str_eqb_true in E2. exfalso. apply H.
+  apply in_map_iff. exists e. split; [symmetry; exact E2|exact E1].
+Qed.
+
+(* with distinct parameter names: Param.<n> is bound iff the entry is not a PATH, same value *)
+Lemma symtab_param : forall vals n,
+  NoDup (map v_name vals) ->
+  st_lookup (symtab_of vals) (p_param ++ n)
+  = match first_named n vals with
+    | Some e => if is_path e then None else Some (v_value e)
+    | None => None
+    end.
+Proof.
+  intros vals n Hnd. rewrite symtab_param_gen.
+  induction vals as [|e r IH]; [reflexivity|].
+  simpl map in Hnd. inversion Hnd as [|x l Hnotin Hnd']. subst x l.
+  unfold first_named at 2. simpl List.find. simpl filter.
+  destruct (str_eqb n (v_name e)) eqn:En.
+  - apply str_eqb_true in En. destruct (is_path e) eqn:Ep; simpl negb; cbv iota.
+    + rewrite first_named_none; [reflexivity|].
+      intros Hin. apply Hnotin. rewrite <- En. apply in_map_iff in Hin.
+      destruct Hin as [e' [E1 E2]]. apply filter_In in E2. destruct E2 as [E2 _].
+      apply in_map_iff. exists e'. split; assumption.
+    + unfold first_named. simpl List.find. rewrite <- En. rewrite str_eqb_refl'. reflexivity.
+  - destruct (is_path e) eqn:Ep; simpl negb; cbv iota.
+    + apply IH. exact Hnd'.
+    + unfold first_named at 1. simpl List.find. rewrite En. apply IH. exact Hnd'.
+Qed.
+
+(* nothing else is bound *)
+Lemma symtab_names : forall vals k,
+  In k (map fst (symtab_of vals)) ->
+  exists e, In e vals /\ (k = p_raw ++ v_name e \/ (k = p_param ++ v_name e /\ is_path e = false)).
+Proof.
+  induction vals as [|[[n t] v] r IH]; intros k H; [destruct H|].
+  rewrite symtab_of_cons in H. rewrite !map_app in H. apply in_app_or in H.
+  destruct H as [H|H].
+  - destruct (str_eqb t $"PATH") eqn:Ep; [destruct H|]. simpl in H. destruct H as [H|[]].
+    exists (n, t, v). split; [left; reflexivity|]. right. split; [symmetry; exact H|]. exact Ep.
+  - apply in_app_or in H. destruct H as [H|H].
+    + simpl in H. destruct H as [H|[]]. exists (n, t, v). split; [left; reflexivity|]. left. symmetry. exact H.
+    + destruct (IH k H) as [e [He1 He2]]. exists e. split; [right; exact He1|exact He2].
+Qed.
+
+Lemma st_lookup_some_in : forall sigma k v, st_lookup sigma k = Some v -> In k (map fst sigma).
+Proof.
+  induction sigma as [|[k' v'] r IH]; intros k v H; [discriminate|].
+  simpl in H. destruct (str_eqb k k') eqn:E.
+  - apply str_eqb_true in E. left. symmetry. exact E.
+  - right. eapply IH. exact H.
+Qed.
+
+Lemma symtab_only : forall vals k v,
+  st_lookup (symtab_of vals) k = Some v ->
+  exists e, In e vals /\ (k = p_raw ++ v_name e \/ (k = p_param ++ v_name e /\ is_path e = false)).
+Proof. intros vals k v H. apply symtab_names. eapply st_lookup_some_in. exact H. Qed.
+
+Theorem symtab_facts : forall vals,
+  (forall n, st_lookup (symtab_of vals) ($"RawParam." ++ n) = option_map v_value (first_named n vals))
+  /\ (forall n, st_lookup (symtab_of vals) ($"Param." ++ n)
+               = option_map v_value (first_named n (filter (fun e => negb (is_path e)) vals)))
+  /\ (NoDup (map v_name vals) ->
+      forall n, st_lookup (symtab_of vals) ($"Param." ++ n)
+                = match first_named n vals with
+                  | Some e => if is_path e then None else Some (v_value e)
+                  | None => None
+                  end)
+  /\ (forall k v, st_lookup (symtab_of vals) k = Some v ->
+        exists e, In e vals /\
+                  (k = $"RawParam." ++ v_name e \/ (k = $"Param." ++ v_name e /\ is_path e = false))).
+Proof.
+  intros vals. split; [|split; [|split]].
+  - exact (symtab_raw vals).
+  - exact (symtab_param_gen vals).
+  - intros H n. exact (symtab_param vals n H).
+  - exact (symtab_only vals).
+Qed.
+
+(* ------------------------------------------------------------------------------------------ *)
+(* 4. shape lemmas: [inst] partially evaluated on the metadata of Generated.schema             *)
+
+Section Shapes.
+  Variable resolve : symtab -> str -> outcome str.
+  Variable sigma : symtab.
+  Variable rec : mval -> outcome mval.
+
+  (* an item / single value of a field that is NOT resolved: models are instantiated, the rest kept *)
+  Definition inst_elem (x : mval) : outcome mval :=
+    match x with MModel _ _ => rec x | _ => Ok x end.
+
+  (* an item / single value of a RESOLVED field: format strings become their resolved text *)
+  Definition res_elem (x : mval) : outcome mval :=
+    match x with
+    | MModel _ _ => rec x
+    | MFmt s => do r <- resolve sigma s; Ok (MStr r)
+    | _ => Ok x
+    end.
+
+  Definition leaf (x : mval) : bool := match x with MList _ | MDict _ | MModel _ _ => false | _ => true end.
+  Definition single (x : mval) : bool := match x with MList _ | MDict _ => false | _ => true end.
+  Definition opt_list (x : mval) : bool := match x with MNone | MList _ => true | _ => false end.
+
+  (* optional list, instantiated elementwise *)
+  Definition elems (x : mval) : outcome mval :=
+    match x with MList l => do l' <- mapM inst_elem l; Ok (MList l') | _ => Ok x end.
+  Definition res_elems (x : mval) : outcome mval :=
+    match x with MList l => do l' <- mapM res_elem l; Ok (MList l') | _ => Ok x end.
+
+  (* optional list -> dictionary keyed by the items' [kf] attribute (result[key] = item, in order) *)
+  Definition keyed_step (kf : string) (acc : outcome (list (str * mval))) (item : mval) :=
+    do a <- acc; do k <- key_of item kf; do y <- inst_elem item; Ok (dict_set a k y).
+  Definition keyed (kf : string) (x : mval) : outcome mval :=
+    match x with
+    | MList l => do d <- fold_left (keyed_step kf) l (Ok []); Ok (MDict d)
+    | _ => Ok x
+    end.
+
+  Variable j : jcm.
+
+  Lemma inst_item_unresolved : forall fn x, mem_s fn (j_resolve j) = false ->
+    inst_item resolve sigma rec j fn x = inst_elem x.
+  Proof. intros fn x H. destruct x; try reflexivity. simpl. rewrite H. reflexivity. Qed.
+
+  Lemma inst_item_resolved : forall fn x, mem_s fn (j_resolve j) = true ->
+    inst_item resolve sigma rec j fn x = res_elem x.
+  Proof. intros fn x H. destruct x; try reflexivity. simpl. rewrite H. reflexivity. Qed.
+
+  Lemma inst_val_single : forall fn x, mem_s fn (j_resolve j) = false -> single x = true ->
+    inst_val resolve sigma rec j fn x = inst_elem x.
+  Proof. intros fn x H Hs. destruct x; try discriminate; try reflexivity. simpl. rewrite H. reflexivity. Qed.
+
+  Lemma inst_val_leaf : forall fn x, mem_s fn (j_resolve j) = false -> leaf x = true ->
+    inst_val resolve sigma rec j fn x = Ok x.
+  Proof. intros fn x H Hs. destruct x; try discriminate; try reflexivity. simpl. rewrite H. reflexivity. Qed.
+
+  Lemma inst_val_fmt : forall fn s, mem_s fn (j_resolve j) = true ->
+    inst_val resolve sigma rec j fn (MFmt s) = do r <- resolve sigma s; Ok (MStr r).
+  Proof. intros fn s H. simpl. rewrite H. reflexivity. Qed.
+
+  Lemma inst_val_elems : forall fn x,
+    mem_s fn (j_resolve j) = false -> lookup_s fn (j_reshape j) = None -> opt_list x = true ->
+    inst_val resolve sigma rec j fn x = elems x.
+  Proof.
+    intros fn x H Hr Ho. destruct x; try discriminate; [reflexivity|].
+    unfold inst_val, elems. rewrite Hr.
+    rewrite (mapM_ext _ _ (inst_item resolve sigma rec j fn) inst_elem); [reflexivity|].
+    intros y _. apply inst_item_unresolved. exact H.
+  Qed.
+
+  Lemma inst_val_res_elems : forall fn x,
+    mem_s fn (j_resolve j) = true -> lookup_s fn (j_reshape j) = None -> opt_list x = true ->
+    inst_val resolve sigma rec j fn x = res_elems x.
+  Proof.
+    intros fn x H Hr Ho. destruct x; try discriminate; [reflexivity|].
+    unfold inst_val, res_elems. rewrite Hr.
+    rewrite (mapM_ext _ _ (inst_item resolve sigma rec j fn) res_elem); [reflexivity|].
+    intros y _. apply inst_item_resolved. exact H.
+  Qed.
+
+  Lemma fold_left_ext : forall (A B : Type) (f g : A -> B -> A) l a,
+    (forall a b, f a b = g a b) -> fold_left f l a = fold_left g l a.
+  Proof. induction l as [|b l IH]; intros a H; [reflexivity|]. simpl. rewrite H. apply IH. exact H. Qed.
+
+  Lemma inst_val_keyed : forall fn kf x,
+    mem_s fn (j_resolve j) = false -> lookup_s fn (j_reshape j) = Some kf -> opt_list x = true ->
+    inst_val resolve sigma rec j fn x = keyed kf x.
+  Proof.
+    intros fn kf x H Hr Ho. destruct x; try discriminate; [reflexivity|].
+    unfold inst_val, keyed. rewrite Hr.
+    rewrite (fold_left_ext _ _ (reshape_step resolve sigma rec j fn kf) (keyed_step kf)); [reflexivity|].
+    intros a b. unfold reshape_step, keyed_step. rewrite inst_item_unresolved; [reflexivity|exact H].
+  Qed.
+End Shapes.
+
+(* absent stays absent, whatever the metadata *)
+Lemma inst_val_none : forall resolve sigma rec j fn, inst_val resolve sigma rec j fn MNone = Ok MNone.
+Proof. reflexivity. Qed.
+
+(* -- the dictionary built by [keyed] ------------------------------------------------------- *)
+
+Lemma keyed_fold : forall rec kf items kys acc,
+  Forall2 (fun item ky => key_of item kf = Ok (fst ky) /\ inst_elem rec item = Ok (snd ky)) items kys ->
+  fold_left (keyed_step rec kf) items (Ok acc)
+  = Ok (fold_left (fun a ky => dict_set a (fst ky) (snd ky)) kys acc).
+Proof.
+  intros rec kf items kys acc H. revert acc. induction H as [|item ky items kys [Hk Hi] _ IH]; intros acc.
+  - reflexivity.
+  - cbn [fold_left]. assert (E : keyed_step rec kf (Ok acc) item = Ok (dict_set acc (fst ky) (snd ky))).
+    { unfold keyed_step. simpl. rewrite Hk. simpl. rewrite Hi. reflexivity. }
+    rewrite E. apply IH.
+Qed.
+
+Lemma dict_set_fresh : forall d k v, ~ In k (map fst d) -> dict_set d k v = d ++ [(k, v)].
+Proof.
+  induction d as [|[k' v'] r IH]; intros k v H; [reflexivity|].
+  simpl. destruct (str_eqb k k') eqn:E.
+  - apply str_eqb_true in E. exfalso. apply H. left. symmetry. exact E.
+  - rewrite IH; [reflexivity|]. intros Hc. apply H. right. exact Hc.
+Qed.
+
+Lemma dict_fold_fresh : forall (kys acc : list (str * mval)),
+  NoDup (map fst (acc ++ kys)) ->
+  fold_left (fun a ky => dict_set a (fst ky) (snd ky)) kys acc = acc ++ kys.
+Proof.
+  induction kys as [|[k v] r IH]; intros acc H; [rewrite app_nil_r; reflexivity|].
+  simpl. rewrite dict_set_fresh.
+  - rewrite IH; rewrite <- app_assoc; [reflexivity|exact H].
+  - rewrite map_app in H. simpl in H. apply NoDup_remove_2 in H. intros Hc. apply H.
+    apply in_or_app. left. exact Hc.
+Qed.
+
+(* every item instantiates and the keys are distinct: the dictionary lists (key, instantiated item)
+   in the order of the list *)
+Theorem keyed_distinct : forall rec kf items kys,
+  Forall2 (fun item ky => key_of item kf = Ok (fst ky) /\ inst_elem rec item = Ok (snd ky)) items kys ->
+  NoDup (map fst kys) ->
+  keyed rec kf (MList items) = Ok (MDict kys).
+Proof.
+  intros rec kf items kys H Hnd. unfold keyed. rewrite (keyed_fold _ _ _ kys []); [|exact H].
+  simpl. rewrite dict_fold_fresh; [reflexivity|exact Hnd].
+Qed.
+
+(* -- instantiated with the recursive call: elementwise identity on carried classes ---------- *)
+
+Lemma elems_unchanged : forall resolve sigma f x,
+  incl (classes_in x) (trivial_classes Generated.schema) -> mval_depth x <= f ->
+  elems (inst Generated.schema resolve sigma f) x = Ok x.
+Proof.
+  intros resolve sigma f x Hi Hd. destruct x; try reflexivity.
+  unfold elems. rewrite mapM_id; [reflexivity|].
+  intros y Hy. destruct y; try reflexivity. unfold inst_elem.
+  apply trivial_unchanged.
+  - intros c Hc. apply Hi. simpl. apply in_flat_map. eexists. split; [exact Hy|exact Hc].
+  - apply (depth_le_max _ mval_depth) in Hy. simpl in Hd. lia.
+Qed.
+
+Lemma inst_elem_unchanged : forall resolve sigma f x,
+  incl (classes_in x) (trivial_classes Generated.schema) -> mval_depth x < f -> single x = true ->
+  inst_elem (inst Generated.schema resolve sigma f) x = Ok x.
+Proof.
+  intros resolve sigma f x Hi Hd Hs. destruct x; try reflexivity; try discriminate.
+  unfold inst_elem. apply trivial_unchanged; [exact Hi|exact Hd].
+Qed.
+
+(* -- the metadata of each non-trivial class, by computation -------------------------------- *)
+
+Definition jcm_JobTemplate : jcm :=
+  mkJcm ["name"] ["schemaStr"; "specificationVersion"] [("parameterDefinitions", "parameters")]
+        [("parameterDefinitions", "name")] (CreateModel "Job") false.
+Definition jcm_StepTemplate : jcm := mkJcm [] [] [] [] (CreateModel "Step") false.
+Definition jcm_JobStringParam : jcm := mkJcm [] param_excl_sp [] [] (CreateModel "JobParameter") true.
+Definition jcm_JobPathParam : jcm :=
+  mkJcm [] ["allowedValues"; "dataFlow"; "default"; "maxLength"; "minLength"; "name"; "objectType"; "userInterface"]
+        [] [] (CreateModel "JobParameter") true.
+Definition jcm_JobNumParam : jcm := mkJcm [] param_excl_num [] [] (CreateModel "JobParameter") true.
+Definition jcm_IntTaskParam : jcm :=
+  mkJcm ["range"] ["name"] [] []
+        (CreateIntRange "RangeExpressionTaskParameterDefinition" "IntRangeListTaskParameterDefinition") false.
+Definition jcm_TaskParam (target : string) : jcm := mkJcm ["range"] ["name"] [] [] (CreateModel target) false.
+Definition jcm_ParamSpace : jcm :=
+  mkJcm [] [] [] [("taskParameterDefinitions", "name")] (CreateModel "StepParameterSpace") false.
+Definition jcm_Amount : jcm := mkJcm ["name"] [] [] [] (CreateModel "AmountRequirement") false.
+Definition jcm_Attribute : jcm := mkJcm ["allOf"; "anyOf"; "name"] [] [] [] (CreateModel "AttributeRequirement") false.
+Definition jcm_HostReq : jcm := mkJcm [] [] [] [] (CreateModel "HostRequirements") false.
+
+Lemma jcm_of_generated :
+  jcm_of Generated.schema "JobTemplate" = jcm_JobTemplate
+  /\ jcm_of Generated.schema "StepTemplate" = jcm_StepTemplate
+  /\ jcm_of Generated.schema "JobStringParameterDefinition" = jcm_JobStringParam
+  /\ jcm_of Generated.schema "JobPathParameterDefinition" = jcm_JobPathParam
+  /\ jcm_of Generated.schema "JobIntParameterDefinition" = jcm_JobNumParam
+  /\ jcm_of Generated.schema "JobFloatParameterDefinition" = jcm_JobNumParam
+  /\ jcm_of Generated.schema "IntTaskParameterDefinition" = jcm_IntTaskParam
+  /\ jcm_of Generated.schema "FloatTaskParameterDefinition" = jcm_TaskParam "FloatRangeListTaskParameterDefinition"
+  /\ jcm_of Generated.schema "StringTaskParameterDefinition" = jcm_TaskParam "RangeListTaskParameterDefinition"
+  /\ jcm_of Generated.schema "PathTaskParameterDefinition" = jcm_TaskParam "RangeListTaskParameterDefinition"
+  /\ jcm_of Generated.schema "StepParameterSpaceDefinition" = jcm_ParamSpace
+  /\ jcm_of Generated.schema "AmountRequirementTemplate" = jcm_Amount
+  /\ jcm_of Generated.schema "AttributeRequirementTemplate" = jcm_Attribute
+  /\ jcm_of Generated.schema "HostRequirementsTemplate" = jcm_HostReq.
+Proof. vm_compute. repeat split. Qed.
+
+(* unfold one class instance into binds over [inst_val] of its non-excluded fields *)
+Ltac shape_unfold :=
+  unfold inst_model; cbn [mapM]; unfold inst_field;
+  cbn [mem_s existsb String.eqb Ascii.eqb Bool.eqb orb lookup_s
+       jcm_JobTemplate jcm_StepTemplate jcm_JobStringParam jcm_JobPathParam jcm_JobNumParam
+       jcm_IntTaskParam jcm_TaskParam jcm_ParamSpace jcm_Amount jcm_Attribute jcm_HostReq
+       param_excl_sp param_excl_num
+       j_exclude j_rename j_adds_value j_create_as add_value target_class mfield].
+Ltac shape_cases :=
+  repeat match goal with
+         | |- context [inst_val ?a ?b ?c ?d ?e ?x] => destruct (inst_val a b c d e x); [|reflexivity]
+         end;
+  try reflexivity;
+  try (match goal with |- context [st_lookup ?a ?b] => destruct (st_lookup a b) end; reflexivity).
+
+Section ShapeLemmas.
+  Variable resolve : symtab -> str -> outcome str.
+  Variable sigma : symtab.
+  Variable rec : mval -> outcome mval.
+
+  Notation IV := (inst_val resolve sigma rec).
+  Notation IM := (inst_model resolve sigma rec).
+
+  (* ---- arbitrary field values: which fields survive, under which name, in which class ---- *)
+
+  Lemma gen_JobTemplate : forall sv nm st d pd je ss,
+    IM jcm_JobTemplate "JobTemplate"
+      [("specificationVersion", sv); ("name", nm); ("steps", st); ("description", d);
+       ("parameterDefinitions", pd); ("jobEnvironments", je); ("schemaStr", ss)]
+    = do n <- IV jcm_JobTemplate "name" nm;
+      do s <- IV jcm_JobTemplate "steps" st;
+      do d' <- IV jcm_JobTemplate "description" d;
+      do p <- IV jcm_JobTemplate "parameterDefinitions" pd;
+      do e <- IV jcm_JobTemplate "jobEnvironments" je;
+      Ok (MModel "Job" [("name", n); ("steps", s); ("description", d'); ("parameters", p); ("jobEnvironments", e)]).
+  Proof. intros. shape_unfold. shape_cases. Qed.
+
+  Lemma gen_StepTemplate : forall n d sc se ps hr dp,
+    IM jcm_StepTemplate "StepTemplate"
+      [("name", n); ("description", d); ("script", sc); ("stepEnvironments", se);
+       ("parameterSpace", ps); ("hostRequirements", hr); ("dependencies", dp)]
+    = do n' <- IV jcm_StepTemplate "name" n;
+      do d' <- IV jcm_StepTemplate "description" d;
+      do sc' <- IV jcm_StepTemplate "script" sc;
+      do se' <- IV jcm_StepTemplate "stepEnvironments" se;
+      do ps' <- IV jcm_StepTemplate "parameterSpace" ps;
+      do hr' <- IV jcm_StepTemplate "hostRequirements" hr;
+      do dp' <- IV jcm_StepTemplate "dependencies" dp;
+      Ok (MModel "Step" [("name", n'); ("description", d'); ("script", sc'); ("stepEnvironments", se');
+                         ("parameterSpace", ps'); ("hostRequirements", hr'); ("dependencies", dp')]).
+  Proof. intros. shape_unfold. shape_cases. Qed.
+
+  (* the value added to a job parameter *)
+  Definition with_value (n : str) (fs : list (string * mval)) : outcome mval :=
+    match st_lookup sigma ($"RawParam." ++ n) with
+    | Some v => Ok (MModel "JobParameter" (fs ++ [("value", MStr v)]))
+    | None => Raise KeyError
+    end.
+
+  Lemma gen_JobStringParam : forall n t ui d mn mx av df,
+    IM jcm_JobStringParam "JobStringParameterDefinition"
+      [("name", MStr n); ("type", t); ("userInterface", ui); ("description", d);
+       ("minLength", mn); ("maxLength", mx); ("allowedValues", av); ("default", df)]
+    = do t' <- IV jcm_JobStringParam "type" t;
+      do d' <- IV jcm_JobStringParam "description" d;
+      with_value n [("type", t'); ("description", d')].
+  Proof. intros. shape_unfold. unfold with_value. shape_cases. Qed.
+
+  Lemma gen_JobPathParam : forall n t ot df_ ui d mn mx av df,
+    IM jcm_JobPathParam "JobPathParameterDefinition"
+      [("name", MStr n); ("type", t); ("objectType", ot); ("dataFlow", df_); ("userInterface", ui);
+       ("description", d); ("minLength", mn); ("maxLength", mx); ("allowedValues", av); ("default", df)]
+    = do t' <- IV jcm_JobPathParam "type" t;
+      do d' <- IV jcm_JobPathParam "description" d;
+      with_value n [("type", t'); ("description", d')].
+  Proof. intros. shape_unfold. unfold with_value. shape_cases. Qed.
+
+  Lemma gen_JobNumParam : forall c n t ui d mn mx av df,
+    IM jcm_JobNumParam c
+      [("name", MStr n); ("type", t); ("userInterface", ui); ("description", d);
+       ("minValue", mn); ("maxValue", mx); ("allowedValues", av); ("default", df)]
+    = do t' <- IV jcm_JobNumParam "type" t;
+      do d' <- IV jcm_JobNumParam "description" d;
+      with_value n [("type", t'); ("description", d')].
+  Proof. intros. shape_unfold. unfold with_value. shape_cases. Qed.
+
+  Lemma gen_IntTaskParam : forall nm t r,
+    IM jcm_IntTaskParam "IntTaskParameterDefinition" [("name", nm); ("type", t); ("range", r)]
+    = do t' <- IV jcm_IntTaskParam "type" t;
+      do r' <- IV jcm_IntTaskParam "range" r;
+      Ok (MModel (match r with
+                  | MFmt _ => "RangeExpressionTaskParameterDefinition"
+                  | _ => "IntRangeListTaskParameterDefinition"
+                  end) [("type", t'); ("range", r')]).
+  Proof. intros. shape_unfold. shape_cases. Qed.
+
+  Lemma gen_TaskParam : forall target c nm t r,
+    IM (jcm_TaskParam target) c [("name", nm); ("type", t); ("range", r)]
+    = do t' <- IV (jcm_TaskParam target) "type" t;
+      do r' <- IV (jcm_TaskParam target) "range" r;
+      Ok (MModel target [("type", t'); ("range", r')]).
+  Proof. intros. shape_unfold. shape_cases. Qed.
+
+  Lemma gen_ParamSpace : forall tpd cb,
+    IM jcm_ParamSpace "StepParameterSpaceDefinition" [("taskParameterDefinitions", tpd); ("combination", cb)]
+    = do t <- IV jcm_ParamSpace "taskParameterDefinitions" tpd;
+      do c <- IV jcm_ParamSpace "combination" cb;
+      Ok (MModel "StepParameterSpace" [("taskParameterDefinitions", t); ("combination", c)]).
+  Proof. intros. shape_unfold. shape_cases. Qed.
+
+  Lemma gen_Amount : forall nm a b,
+    IM jcm_Amount "AmountRequirementTemplate" [("name", nm); ("min", a); ("max", b)]
+    = do n <- IV jcm_Amount "name" nm;
+      do a' <- IV jcm_Amount "min" a;
+      do b' <- IV jcm_Amount "max" b;
+      Ok (MModel "AmountRequirement" [("name", n); ("min", a'); ("max", b')]).
+  Proof. intros. shape_unfold. shape_cases. Qed.
+
+  Lemma gen_Attribute : forall nm any all,
+    IM jcm_Attribute "AttributeRequirementTemplate" [("name", nm); ("anyOf", any); ("allOf", all)]
+    = do n <- IV jcm_Attribute "name" nm;
+      do a' <- IV jcm_Attribute "anyOf" any;
+      do b' <- IV jcm_Attribute "allOf" all;
+      Ok (MModel "AttributeRequirement" [("name", n); ("anyOf", a'); ("allOf", b')]).
+  Proof. intros. shape_unfold. shape_cases. Qed.
+
+  Lemma gen_HostReq : forall am at_,
+    IM jcm_HostReq "HostRequirementsTemplate" [("amounts", am); ("attributes", at_)]
+    = do a <- IV jcm_HostReq "amounts" am;
+      do b <- IV jcm_HostReq "attributes" at_;
+      Ok (MModel "HostRequirements" [("amounts", a); ("attributes", b)]).
+  Proof. intros. shape_unfold. shape_cases. Qed.
+End ShapeLemmas.
+
+(* ---- well-shaped field values: the result spelled out ----------------------------------- *)
+Ltac side := first [reflexivity | assumption].
+
+Section Typed.
+  Variable resolve : symtab -> str -> outcome str.
+  Variable sigma : symtab.
+  Variable f : nat.
+
+  Notation REC := (inst Generated.schema resolve sigma f).
+  Notation INST := (inst Generated.schema resolve sigma (S f)).
+
+  Let J := jcm_of_generated.
+
+  (* JobTemplate -> Job: name resolved; steps / jobEnvironments instantiated elementwise;
+     description unchanged; parameterDefinitions -> "parameters", keyed by name;
+     specificationVersion and schemaStr dropped; nothing else *)
+  Theorem shape_JobTemplate : forall sv s st d pd je ss,
+    opt_list st = true -> leaf d = true -> opt_list pd = true -> opt_list je = true ->
+    INST (MModel "JobTemplate"
+            [("specificationVersion", sv); ("name", MFmt s); ("steps", st); ("description", d);
+             ("parameterDefinitions", pd); ("jobEnvironments", je); ("schemaStr", ss)])
+    = do n <- resolve sigma s;
+      do st' <- elems REC st;
+      do p <- keyed REC "name" pd;
+      do e <- elems REC je;
+      Ok (MModel "Job" [("name", MStr n); ("steps", st'); ("description", d); ("parameters", p);
+                        ("jobEnvironments", e)]).
+  Proof.
+    intros sv s st d pd je ss Hst Hd Hpd Hje. rewrite inst_S.
+    replace (jcm_of Generated.schema "JobTemplate") with jcm_JobTemplate by (symmetry; apply J).
+    rewrite gen_JobTemplate.
+    rewrite inst_val_fmt by side.
+    rewrite (inst_val_elems _ _ _ _ "steps") by side.
+    rewrite (inst_val_leaf _ _ _ _ "description") by side.
+    rewrite (inst_val_keyed _ _ _ _ "parameterDefinitions" "name") by side.
+    rewrite (inst_val_elems _ _ _ _ "jobEnvironments") by side.
+    destruct (resolve sigma s); reflexivity.
+  Qed.
+
+  (* StepTemplate -> Step: all seven fields kept under their names *)
+  Theorem shape_StepTemplate : forall n d sc se ps hr dp,
+    leaf n = true -> leaf d = true -> single sc = true -> opt_list se = true ->
+    single ps = true -> single hr = true -> opt_list dp = true ->
+    INST (MModel "StepTemplate"
+            [("name", n); ("description", d); ("script", sc); ("stepEnvironments", se);
+             ("parameterSpace", ps); ("hostRequirements", hr); ("dependencies", dp)])
+    = do sc' <- inst_elem REC sc;
+      do se' <- elems REC se;
+      do ps' <- inst_elem REC ps;
+      do hr' <- inst_elem REC hr;
+      do dp' <- elems REC dp;
+      Ok (MModel "Step" [("name", n); ("description", d); ("script", sc'); ("stepEnvironments", se');
+                         ("parameterSpace", ps'); ("hostRequirements", hr'); ("dependencies", dp')]).
+  Proof.
+    intros n d sc se ps hr dp Hn Hd Hsc Hse Hps Hhr Hdp. rewrite inst_S.
+    replace (jcm_of Generated.schema "StepTemplate") with jcm_StepTemplate by (symmetry; apply J).
+    rewrite gen_StepTemplate.
+    rewrite (inst_val_leaf _ _ _ _ "name") by side.
+    rewrite (inst_val_leaf _ _ _ _ "description") by side.
+    rewrite (inst_val_single _ _ _ _ "script") by side.
+    rewrite (inst_val_elems _ _ _ _ "stepEnvironments") by side.
+    rewrite (inst_val_single _ _ _ _ "parameterSpace") by side.
+    rewrite (inst_val_single _ _ _ _ "hostRequirements") by side.
+    rewrite (inst_val_elems _ _ _ _ "dependencies") by side.
+    reflexivity.
+  Qed.
+
+  (* ... and when script, environments and dependencies are built from the carried classes they
+     are carried over unchanged: only parameterSpace and hostRequirements are rewritten *)
+  Theorem shape_StepTemplate_carried : forall n d sc se ps hr dp,
+    leaf n = true -> leaf d = true -> single sc = true -> opt_list se = true ->
+    single ps = true -> single hr = true -> opt_list dp = true ->
+    incl (classes_in sc) carried_classes -> mval_depth sc < f ->
+    incl (classes_in se) carried_classes -> mval_depth se <= f ->
+    incl (classes_in dp) carried_classes -> mval_depth dp <= f ->
+    INST (MModel "StepTemplate"
+            [("name", n); ("description", d); ("script", sc); ("stepEnvironments", se);
+             ("parameterSpace", ps); ("hostRequirements", hr); ("dependencies", dp)])
+    = do ps' <- inst_elem REC ps;
+      do hr' <- inst_elem REC hr;
+      Ok (MModel "Step" [("name", n); ("description", d); ("script", sc); ("stepEnvironments", se);
+                         ("parameterSpace", ps'); ("hostRequirements", hr'); ("dependencies", dp)]).
+  Proof.
+    intros n d sc se ps hr dp Hn Hd Hsc Hse Hps Hhr Hdp Csc Dsc Cse Dse Cdp Ddp.
+    rewrite shape_StepTemplate by assumption.
+    rewrite inst_elem_unchanged; [|intros c Hc; apply carried_are_trivial, Csc, Hc|exact Dsc|exact Hsc].
+    rewrite (elems_unchanged _ _ _ se); [|intros c Hc; apply carried_are_trivial, Cse, Hc|exact Dse].
+    rewrite (elems_unchanged _ _ _ dp); [|intros c Hc; apply carried_are_trivial, Cdp, Hc|exact Ddp].
+    cbn [bind]. destruct (inst_elem REC ps); [|reflexivity]. cbn [bind].
+    destruct (inst_elem REC hr); reflexivity.
+  Qed.
+
+  (* job parameters -> JobParameter {type, description, value}; value = RawParam.<name>;
+     KeyError when the symbol is unbound; every other field of the definition is dropped *)
+  Definition job_parameter (n : str) (t d : mval) : outcome mval :=
+    match st_lookup sigma ($"RawParam." ++ n) with
+    | Some v => Ok (MModel "JobParameter" [("type", t); ("description", d); ("value", MStr v)])
+    | None => Raise KeyError
+    end.
+
+  Theorem shape_JobStringParam : forall n t ui d mn mx av df,
+    leaf t = true -> leaf d = true ->
+    INST (MModel "JobStringParameterDefinition"
+            [("name", MStr n); ("type", t); ("userInterface", ui); ("description", d);
+             ("minLength", mn); ("maxLength", mx); ("allowedValues", av); ("default", df)])
+    = job_parameter n t d.
+  Proof.
+    intros n t ui d mn mx av df Ht Hd. rewrite inst_S.
+    replace (jcm_of Generated.schema "JobStringParameterDefinition") with jcm_JobStringParam by (symmetry; apply J).
+    rewrite gen_JobStringParam.
+    rewrite (inst_val_leaf _ _ _ _ "type") by side.
+    rewrite (inst_val_leaf _ _ _ _ "description") by side.
+    reflexivity.
+  Qed.
+
+  Theorem shape_JobPathParam : forall n t ot dfl ui d mn mx av df,
+    leaf t = true -> leaf d = true ->
+    INST (MModel "JobPathParameterDefinition"
+            [("name", MStr n); ("type", t); ("objectType", ot); ("dataFlow", dfl); ("userInterface", ui);
+             ("description", d); ("minLength", mn); ("maxLength", mx); ("allowedValues", av); ("default", df)])
+    = job_parameter n t d.
+  Proof.
+    intros n t ot dfl ui d mn mx av df Ht Hd. rewrite inst_S.
+    replace (jcm_of Generated.schema "JobPathParameterDefinition") with jcm_JobPathParam by (symmetry; apply J).
+    rewrite gen_JobPathParam.
+    rewrite (inst_val_leaf _ _ _ _ "type") by side.
+    rewrite (inst_val_leaf _ _ _ _ "description") by side.
+    reflexivity.
+  Qed.
+
+  Theorem shape_JobIntParam : forall n t ui d mn mx av df,
+    leaf t = true -> leaf d = true ->
+    INST (MModel "JobIntParameterDefinition"
+            [("name", MStr n); ("type", t); ("userInterface", ui); ("description", d);
+             ("minValue", mn); ("maxValue", mx); ("allowedValues", av); ("default", df)])
+    = job_parameter n t d.
+  Proof.
+    intros n t ui d mn mx av df Ht Hd. rewrite inst_S.
+    replace (jcm_of Generated.schema "JobIntParameterDefinition") with jcm_JobNumParam by (symmetry; apply J).
+    rewrite gen_JobNumParam.
+    rewrite (inst_val_leaf _ _ _ _ "type") by side.
+    rewrite (inst_val_leaf _ _ _ _ "description") by side.
+    reflexivity.
+  Qed.
+
+  Theorem shape_JobFloatParam : forall n t ui d mn mx av df,
+    leaf t = true -> leaf d = true ->
+    INST (MModel "JobFloatParameterDefinition"
+            [("name", MStr n); ("type", t); ("userInterface", ui); ("description", d);
+             ("minValue", mn); ("maxValue", mx); ("allowedValues", av); ("default", df)])
+    = job_parameter n t d.
+  Proof.
+    intros n t ui d mn mx av df Ht Hd. rewrite inst_S.
+    replace (jcm_of Generated.schema "JobFloatParameterDefinition") with jcm_JobNumParam by (symmetry; apply J).
+    rewrite gen_JobNumParam.
+    rewrite (inst_val_leaf _ _ _ _ "type") by side.
+    rewrite (inst_val_leaf _ _ _ _ "description") by side.
+    reflexivity.
+  Qed.
+
+  (* task parameters: name dropped, range resolved (itemwise for a list), target class *)
+  Theorem shape_IntTaskParam_expr : forall nm t s,
+    leaf t = true ->
+    INST (MModel "IntTaskParameterDefinition" [("name", nm); ("type", t); ("range", MFmt s)])
+    = do r <- resolve sigma s;
+      Ok (MModel "RangeExpressionTaskParameterDefinition" [("type", t); ("range", MStr r)]).
+  Proof.
+    intros nm t s Ht. rewrite inst_S.
+    replace (jcm_of Generated.schema "IntTaskParameterDefinition") with jcm_IntTaskParam by (symmetry; apply J).
+    rewrite gen_IntTaskParam.
+    rewrite (inst_val_leaf _ _ _ _ "type") by side.
+    rewrite inst_val_fmt by side.
+    destruct (resolve sigma s); reflexivity.
+  Qed.
+
+  Theorem shape_IntTaskParam_list : forall nm t items,
+    leaf t = true ->
+    INST (MModel "IntTaskParameterDefinition" [("name", nm); ("type", t); ("range", MList items)])
+    = do l <- mapM (res_elem resolve sigma REC) items;
+      Ok (MModel "IntRangeListTaskParameterDefinition" [("type", t); ("range", MList l)]).
+  Proof.
+    intros nm t items Ht. rewrite inst_S.
+    replace (jcm_of Generated.schema "IntTaskParameterDefinition") with jcm_IntTaskParam by (symmetry; apply J).
+    rewrite gen_IntTaskParam.
+    rewrite (inst_val_leaf _ _ _ _ "type") by side.
+    rewrite (inst_val_res_elems _ _ _ _ "range") by side.
+    cbn [bind res_elems]. destruct (mapM (res_elem resolve sigma REC) items); reflexivity.
+  Qed.
+
+  Definition task_param_target (c : string) : string :=
+    if String.eqb c "FloatTaskParameterDefinition" then "FloatRangeListTaskParameterDefinition"
+    else "RangeListTaskParameterDefinition".
+
+  Theorem shape_TaskParam : forall c nm t items,
+    In c ["FloatTaskParameterDefinition"; "StringTaskParameterDefinition"; "PathTaskParameterDefinition"] ->
+    leaf t = true ->
+    INST (MModel c [("name", nm); ("type", t); ("range", MList items)])
+    = do l <- mapM (res_elem resolve sigma REC) items;
+      Ok (MModel (task_param_target c) [("type", t); ("range", MList l)]).
+  Proof.
+    intros c nm t items Hc Ht. rewrite inst_S.
+    assert (E : jcm_of Generated.schema c = jcm_TaskParam (task_param_target c)).
+    { destruct Hc as [Hc|[Hc|[Hc|[]]]]; subst c; apply J. }
+    rewrite E. rewrite gen_TaskParam.
+    rewrite (inst_val_leaf _ _ _ _ "type") by side.
+    rewrite (inst_val_res_elems _ _ _ _ "range") by side.
+    cbn [bind res_elems]. destruct (mapM (res_elem resolve sigma REC) items); reflexivity.
+  Qed.
+
+  (* parameter space: taskParameterDefinitions list -> dictionary keyed by name; combination unchanged *)
+  Theorem shape_ParamSpace : forall tpd cb,
+    opt_list tpd = true -> leaf cb = true ->
+    INST (MModel "StepParameterSpaceDefinition" [("taskParameterDefinitions", tpd); ("combination", cb)])
+    = do t <- keyed REC "name" tpd;
+      Ok (MModel "StepParameterSpace" [("taskParameterDefinitions", t); ("combination", cb)]).
+  Proof.
+    intros tpd cb Ht Hc. rewrite inst_S.
+    replace (jcm_of Generated.schema "StepParameterSpaceDefinition") with jcm_ParamSpace by (symmetry; apply J).
+    rewrite gen_ParamSpace.
+    rewrite (inst_val_keyed _ _ _ _ "taskParameterDefinitions" "name") by side.
+    rewrite (inst_val_leaf _ _ _ _ "combination") by side.
+    reflexivity.
+  Qed.
+
+  Theorem shape_Amount : forall s a b,
+    leaf a = true -> leaf b = true ->
+    INST (MModel "AmountRequirementTemplate" [("name", MFmt s); ("min", a); ("max", b)])
+    = do r <- resolve sigma s;
+      Ok (MModel "AmountRequirement" [("name", MStr r); ("min", a); ("max", b)]).
+  Proof.
+    intros s a b Ha Hb. rewrite inst_S.
+    replace (jcm_of Generated.schema "AmountRequirementTemplate") with jcm_Amount by (symmetry; apply J).
+    rewrite gen_Amount.
+    rewrite inst_val_fmt by side.
+    rewrite (inst_val_leaf _ _ _ _ "min") by side.
+    rewrite (inst_val_leaf _ _ _ _ "max") by side.
+    destruct (resolve sigma s); reflexivity.
+  Qed.
+
+  Theorem shape_Attribute : forall s any all,
+    opt_list any = true -> opt_list all = true ->
+    INST (MModel "AttributeRequirementTemplate" [("name", MFmt s); ("anyOf", any); ("allOf", all)])
+    = do r <- resolve sigma s;
+      do a <- res_elems resolve sigma REC any;
+      do b <- res_elems resolve sigma REC all;
+      Ok (MModel "AttributeRequirement" [("name", MStr r); ("anyOf", a); ("allOf", b)]).
+  Proof.
+    intros s any all Ha Hb. rewrite inst_S.
+    replace (jcm_of Generated.schema "AttributeRequirementTemplate") with jcm_Attribute by (symmetry; apply J).
+    rewrite gen_Attribute.
+    rewrite inst_val_fmt by side.
+    rewrite (inst_val_res_elems _ _ _ _ "anyOf") by side.
+    rewrite (inst_val_res_elems _ _ _ _ "allOf") by side.
+    destruct (resolve sigma s); reflexivity.
+  Qed.
+
+  Theorem shape_HostReq : forall am at_,
+    opt_list am = true -> opt_list at_ = true ->
+    INST (MModel "HostRequirementsTemplate" [("amounts", am); ("attributes", at_)])
+    = do a <- elems REC am;
+      do b <- elems REC at_;
+      Ok (MModel "HostRequirements" [("amounts", a); ("attributes", b)]).
+  Proof.
+    intros am at_ Ha Hb. rewrite inst_S.
+    replace (jcm_of Generated.schema "HostRequirementsTemplate") with jcm_HostReq by (symmetry; apply J).
+    rewrite gen_HostReq.
+    rewrite (inst_val_elems _ _ _ _ "amounts") by side.
+    rewrite (inst_val_elems _ _ _ _ "attributes") by side.
+    reflexivity.
+  Qed.
+End Typed.
+
+(* ------------------------------------------------------------------------------------------ *)
+(* 6. resolved text = single-pass substitution on the ORIGINAL string (link to C16)            *)
+
+Require Import OJD.FormatStr OJD.FormatStrSpec OJD.FormatStrProofs.
+
+(* FormatString(s).resolve(symtab) as create_job runs it (the value of a format-string field is
+   the string it was built from, C16_eq) *)
+Definition fs_resolve (classify : N -> cclass) (sigma : CreateJob.symtab) (s : str) : outcome str :=
+  match mk classify s with
+  | Ok f => FormatStr.resolve sigma f
+  | Raise e => Raise e
+  end.
+
+Lemma st_lookup_is_lookup : forall sigma n, st_lookup sigma n = FormatStr.lookup sigma n.
+Proof. induction sigma as [|[k v] r IH]; intros n; [reflexivity|]. simpl. rewrite IH. reflexivity. Qed.
+
+Theorem fs_resolve_single_pass : forall classify, ascii_ok classify = true ->
+  forall s segs last sigma, Decomp classify s segs last ->
+  fs_resolve classify sigma s = match spec_resolve classify sigma segs last with
+                                | Some r => Ok r
+                                | None => Raise FormatStringError
+                                end.
+Proof.
+  intros classify Hok s segs last sigma Hd. unfold fs_resolve.
+  assert (Hm : mk classify s = Ok (mkF s (items_of classify 0 segs last))).
+  { apply (mk_value_iff classify Hok). exists segs, last. split; [exact Hd|reflexivity]. }
+  rewrite Hm. eapply (mk_resolve classify Hok); eassumption.
+Qed.
+
+Theorem fs_resolve_bound : forall classify, ascii_ok classify = true ->
+  forall s segs last sigma, Decomp classify s segs last ->
+  (forall n, In n (refs classify segs) -> st_lookup sigma n <> None) ->
+  exists r, spec_resolve classify sigma segs last = Some r /\ fs_resolve classify sigma s = Ok r.
+Proof.
+  intros classify Hok s segs last sigma Hd Hb. unfold fs_resolve.
+  assert (Hm : mk classify s = Ok (mkF s (items_of classify 0 segs last))).
+  { apply (mk_value_iff classify Hok). exists segs, last. split; [exact Hd|reflexivity]. }
+  rewrite Hm. apply (mk_resolve_bound classify Hok s _ segs last sigma Hm Hd).
+  intros n Hn. rewrite <- st_lookup_is_lookup. apply Hb. exact Hn.
+Qed.
+
+(* a string that is no format string at all: FormatStringError, nothing else *)
+Theorem fs_resolve_errors : forall classify, ascii_ok classify = true ->
+  forall s sigma e, fs_resolve classify sigma s = Raise e -> e = FormatStringError.
+Proof.
+  intros classify Hok s sigma e H. unfold fs_resolve in H.
+  destruct (mk classify s) as [f0|e0] eqn:Hm.
+  - destruct (mk_resolve_fail_iff classify Hok s f0 sigma Hm) as [_ [_ H3]]. apply H3. exact H.
+  - inversion H. subst e0. eapply mk_errors. exact Hm.
+Qed.
+
+(* what [inst] stores for a resolved format-string value *)
+Theorem res_elem_single_pass : forall classify, ascii_ok classify = true ->
+  forall s segs last sigma rec, Decomp classify s segs last ->
+  res_elem (fs_resolve classify) sigma rec (MFmt s)
+  = match spec_resolve classify sigma segs last with
+    | Some r => Ok (MStr r)
+    | None => Raise FormatStringError
+    end.
+Proof.
+  intros classify Hok s segs last sigma rec Hd. unfold res_elem.
+  rewrite (fs_resolve_single_pass classify Hok s segs last sigma Hd).
+  destruct (spec_resolve classify sigma segs last); reflexivity.
+Qed.
